@@ -815,7 +815,8 @@ impl Paragraph {
 
     /// Remove the given field from the paragraph.
     pub fn remove(&mut self, key: &str) {
-        for mut entry in self.entries() {
+        // collect first: the children iterator ends once the entry it last returned is detached
+        for mut entry in self.entries().collect::<Vec<_>>() {
             if entry.key().as_deref() == Some(key) {
                 entry.detach();
             }
